@@ -314,6 +314,107 @@ def driver_verdicts(ck, lps, cfgs, runs, hruns, ans, skipped, hists=None):
                              no_input=True)
 
 
+def fr2dy(q):
+    """a dyadic Fraction as the token m:e of harness/common.hpp"""
+    q = Fraction(q)
+    e = 0
+    d = q.denominator
+    while d > 1:
+        assert d % 2 == 0, "not dyadic"
+        d //= 2
+        e -= 1
+    return "%d:%d" % (q.numerator, e)
+
+
+def gate_check(ck, exe, model, lps, r, count):
+    """the in-tree verification gate against coq/SolveGateModel.v: after a solve (so that a basis exists and the LP may be
+    persistently scaled) the stored solution vectors are overwritten with chosen dyadic vectors and getBoundViolation /
+    getRowViolation / getDualViolation / getRedCostViolation are called; the extracted model computes the same four
+    (max, sum) pairs from the LP, the vectors and the basis statuses the solver reports.  Exact comparison."""
+    pick = [k for k, p in enumerate(lps) if p.n >= 1 and p.m >= 1 and p.n + p.m <= 14]
+    r.shuffle(pick)
+    pick = pick[:count]
+    Q8 = [Fraction(i, 4) for i in range(-24, 25)]
+
+    def near(lo, up):
+        c = []
+        for b in (lo, up):
+            if b is not None and b.denominator in (1, 2, 4):
+                c += [b, b, b - Fraction(1, 2), b + Fraction(1, 4), b + Fraction(3), b - Fraction(2)]
+        return r.choice(c) if c and r.random() < 0.7 else r.choice(Q8)
+    txt, cases = "", []
+    for k in pick:
+        p = lps[k]
+        txt += p.text("g%d" % k) + "\n"
+        for t in range(2):
+            cfg = {"simplifier": r.choice([0, 0, 1]), "scaler": r.choice([0, 2, 2, 3, 5]), "persistentscaling": r.choice([0, 1, 1])}
+            x = [near(c[1], c[2]) for c in p.cols]
+            y = [r.choice(Q8 + [Fraction(0)] * 20) for _ in range(p.m)]
+            d = [r.choice(Q8 + [Fraction(0)] * 20) for _ in range(p.n)]
+            txt += "GATE %d %s x=%s y=%s d=%s\n" % (t, lpgen.cfg_text(cfg), ",".join(map(fr2dy, x)), ",".join(map(fr2dy, y)), ",".join(map(fr2dy, d)))
+            cases.append((k, t, cfg, x, y, d))
+    if not cases:
+        return
+    rc, out, err = lpgen.run_harness(exe, txt, ck.pid + "-gate")
+    B = lpgen.blocks(out)
+    q, obs = "", {}
+    for k in pick:
+        p = lps[k]
+        q += p.text("g%d" % k) + "\n"
+        for l in B.get("g%d" % k, []):
+            if not l.startswith("GATE "):
+                continue
+            o = lpgen.parse_kv(l)
+            obs[(k, int(o["_id"]))] = o
+    for (k, t, cfg, x, y, d) in cases:
+        o = obs.get((k, t))
+        if o is None or "rst" not in o:
+            ck.count("gate:no-observation")
+            continue
+    # queries have to follow their LP block: regroup
+    q = ""
+    for k in pick:
+        q += lps[k].text("g%d" % k) + "\n"
+        for (k2, t, cfg, x, y, d) in cases:
+            o = obs.get((k2, t))
+            if k2 != k or o is None or "rst" not in o:
+                continue
+            q += "Q g%d gate %s %s %s %s, %s,\n" % (t, vtxt(x), vtxt(y), vtxt(d), o["rst"].strip(",") or "-", o["cst"].strip(",") or "-")
+    S = Session(ck, exe, model)
+    A = S._ask(q, "gate")
+    for (k, t, cfg, x, y, d) in cases:
+        o = obs.get((k, t))
+        if o is None or "rst" not in o:
+            continue
+        a = [l.split()[3] for l in A.get("g%d" % k, []) if l.startswith("A g%d gate " % t)]
+        if not a:
+            ck.count("gate:no-model-answer")
+            continue
+        mod = [tuple(Fraction(z) for z in pr.split(",")) for pr in a[0].split(";")]
+        impl = []
+        for key in ("bv", "rv", "dv", "cv"):
+            u, v = o[key].split(",")
+            impl.append((lpgen.dy2fr(u), lpgen.dy2fr(v)))
+        ret = o.get("ret", "")
+        ck.count("gate:scaled=%s" % o.get("scaled"))
+        ck.evaluated(("gate", lps[k].key(), t, lpgen.cfg_text(cfg)), nontrivial=True)
+        names = ["bound", "row", "dual", "redcost"]
+        for idx in range(4):
+            if idx < len(ret) and ret[idx] == "0":
+                ck.count("gate:%s-unavailable" % names[idx])
+                continue
+            nz = mod[idx][0] != 0
+            ck.count("gate:%s:%s" % (names[idx], "violated" if nz else "clean"))
+            if impl[idx] != mod[idx]:
+                ck.violation("gate-correspondence:%s" % names[idx],
+                             "get%sViolation returns (max, sum) = (%s, %s) on injected vectors, coq/SolveGateModel.v gives (%s, %s); statuses rows %s cols %s, under %s" % (
+                                 names[idx].capitalize(), impl[idx][0], impl[idx][1], mod[idx][0], mod[idx][1], o["rst"], o["cst"], cfg),
+                             {"lp": lps[k].text("replay"), "lp_format": lps[k].lp_format(), "config": cfg, "x": [str(z) for z in x], "y": [str(z) for z in y],
+                              "d": [str(z) for z in d], "observed": {a2: b2 for a2, b2 in o.items() if not a2.startswith("_")},
+                              "correspondence": "SolveGateModel.%s_violation vs SoPlexBase::get%sViolation" % (names[idx], names[idx].capitalize())},
+                             no_input=True)
+
+
 def run_in_chunks(ck, exe, model, lps, cfgs, chunk=60, workers=8, hists=None):
     """classify + run + judge in parallel chunks; returns per-LP dicts keyed by the global LP index.
     A chunk whose checker run failed is dropped from judgement (reported once as checker-crash)."""
